@@ -354,6 +354,21 @@ pub fn run_c03(ctx: &Ctx, st: &mut Local) {
         c03_parser_check(ctx, st, eng, i, &c.bytes, c.plain.as_deref());
     };
     e4_pairspace(ctx, "E4", &dists, st, &mut g);
+    // many distinct dynamic headers one after the other on one thread (public API)
+    let judge = |c: &StreamCase| -> Option<String> {
+        match caught(|| ctx.cur.decompress(&c.bytes, false)) {
+            Ok(Ok(r)) => {
+                if Some(&r.plain) != c.plain.as_ref() || r.size != c.bytes.len() {
+                    Some("plain_text / compressed_size differ from what zlib and the model give for this stream".into())
+                } else {
+                    None
+                }
+            }
+            _ => None,
+        }
+    };
+    let (nb, per) = if ctx.quick() { (16, 100_000) } else { (64, 400_000) };
+    e3_history(ctx, "E3hist", nb, per, st, &judge);
 }
 
 /// the reader alone (hook): plaintext and consumed length against zlib
@@ -497,6 +512,24 @@ pub fn run_c07(ctx: &Ctx, st: &mut Local) {
     e6_compgrid(ctx, "E6", &comps, &grid_texts(ctx), st, &mut g);
     let mut h = |st: &mut Local, eng: &str, i: u64, b: &[u8]| c07_check(ctx, st, eng, i, b, None);
     mutspace::e8_stream_mutants(ctx, "E8", st, &mut h);
+    // many distinct dynamic headers one after the other on one thread
+    let judge = |c: &StreamCase| -> Option<String> {
+        match caught(|| ctx.cur.parse_and_rewrite(&c.bytes)) {
+            Ok(Ok((re, consumed, plain))) => {
+                if consumed != c.bytes.len() || re != c.bytes {
+                    Some("rewritten bytes differ from the input".into())
+                } else if Some(&plain) != c.plain.as_ref() {
+                    Some("parser plaintext differs from the model's".into())
+                } else {
+                    None
+                }
+            }
+            Ok(Err(e)) => Some(format!("valid stream rejected: {}", first_line(&e.msg))),
+            Err(p) => Some(format!("panic at {}", p.loc)),
+        }
+    };
+    let (nb, per) = if ctx.quick() { (16, 100_000) } else { (64, 400_000) };
+    e3_history(ctx, "E3hist", nb, per, st, &judge);
 }
 
 // ---------------------------------------------------------------------------------------------
